@@ -109,6 +109,14 @@ Proof. induction s; simpl; intros; auto. apply IHs, w64_lt. Qed.
 Lemma tax_hash_lt : forall s, (tax_hash s < W64)%N.
 Proof. intros. apply fnv1a_lt. reflexivity. Qed.
 
+Lemma psum_split : forall pl (pre : list slot) s post,
+    psum (map (side_of_slot pl) (pre ++ s :: post)) =
+    ((fst (psum (map (side_of_slot pl) (pre ++ post))) + fst (side_of_slot pl s))%N,
+     snd (psum (map (side_of_slot pl) (pre ++ post))) + snd (side_of_slot pl s)).
+Proof.
+  intros. rewrite !map_app, !psum_app, map_cons, psum_cons. cbn [fst snd]. apply f_equal2; lia.
+Qed.
+
 (** * what lies below a non-root node *)
 Section Below.
   Variable ids : list string.
@@ -257,7 +265,7 @@ Section Rows.
       (w64 (fst (psum (map (side_of_slot pl) (pre ++ post)))), snd (psum (map (side_of_slot pl) (pre ++ post)))).
   Proof.
     intros. unfold left_for. rewrite (left_sum_split pl pre s post 0).
-    rewrite fold_hadd_spec by reflexivity. simpl. now rewrite N.add_0_l.
+    rewrite fold_hadd_spec by reflexivity. cbn [fst snd]. now rewrite N.add_0_l, Nat.add_0_l.
   Qed.
 
   Lemma in_none_of_nup : forall sl : list slot, 1 <= n_up sl -> In None sl.
@@ -279,22 +287,23 @@ Section Rows.
     assert (Hr : right_of c = (w64 (fst (psum (map slot_side0 sl'))), snd (psum (map slot_side0 sl')))).
     { unfold c. simpl right_of. apply Nat.ltb_lt in D.
       destruct (Nat.eqb_spec (length sl') 1); [lia|].
-      rewrite fold_hadd_spec by reflexivity. simpl. now rewrite N.add_0_l. }
+      rewrite fold_hadd_spec by reflexivity. cbn [fst snd]. now rewrite N.add_0_l, Nat.add_0_l. }
     assert (Hall : psum (map (side_of_slot pl) (pre ++ Some (e, c) :: post)) =
                    ((fst oth + fst (right_of c))%N, snd oth + snd (right_of c))).
-    { unfold oth. rewrite !map_app. simpl map. rewrite !psum_app, psum_cons. simpl. f_equal; lia. }
-    rewrite Hall in HH, HN. simpl in HH, HN.
+    { exact (psum_split pl pre (Some (e, c)) post). }
+    rewrite Hall in HH, HN. cbn [fst snd] in HH, HN.
     assert (Hpos : 1 <= snd oth) by (apply (HP pre (Some (e, c)) post); [reflexivity | discriminate]).
-    unfold NI. rewrite psum_sides_pl, Hup. simpl fst. simpl snd.
+    unfold NI. rewrite psum_sides_pl, Hup. cbn [fst snd].
+    change (N.of_nat 1) with 1%N. rewrite N.mul_1_l, Nat.mul_1_l.
     split; [apply w64_lt|]. split; [|split].
-    - rewrite N.mul_1_l. rewrite w64_add_l. rewrite Hr in HH. simpl in HH. rewrite w64_add_r in HH. exact HH.
-    - rewrite Hr in HN. simpl in HN. lia.
+    - rewrite w64_add_l. rewrite Hr in HH. cbn [fst snd] in HH. rewrite w64_add_r in HH. exact HH.
+    - rewrite Hr in HN. cbn [fst snd] in HN. lia.
     - intros pre' s post' E NS.
       assert (Hin : In None (pre' ++ post')).
       { assert (In None sl') by (apply in_none_of_nup; lia).
         rewrite E in H0. apply in_app_or in H0. apply in_or_app.
         destruct H0 as [?|[?|?]]; auto. congruence. }
-      eapply Nat.le_trans; [|apply psum_in_le; apply in_map; exact Hin]. simpl. lia.
+      eapply Nat.le_trans; [|apply psum_in_le; apply in_map; exact Hin]. cbn [side_of_slot snd]. lia.
   Qed.
 
   (** main lemma: rows and branches correspond, from any node whose sides add up *)
@@ -332,15 +341,14 @@ Section Rows.
       assert (Hall : psum (map (side_of_slot pl) sl) =
                      ((fst (psum (map (side_of_slot pl) (pre ++ r))) + fst (right_of c))%N,
                       snd (psum (map (side_of_slot pl) (pre ++ r))) + snd (right_of c))).
-      { rewrite E. rewrite !map_app. simpl map. rewrite !psum_app, psum_cons. simpl. f_equal; lia. }
+      { rewrite E. exact (psum_split pl pre (Some (e, c)) r). }
       constructor.
-      - unfold Rrow. simpl. rewrite LF, Hr. simpl.
-        rewrite Hall, Hr in HH, HN. simpl in HH, HN.
-        repeat split; auto.
-        + lia.
-        + now rewrite w64_add_l.
-        + apply w64_lt.
-        + apply (HP pre (Some (e, c)) r E). discriminate.
+      - unfold Rrow. cbn [r_bits r_nright r_nleft r_hright r_hleft r_tip snd fst]. rewrite LF, Hr. cbn [fst snd].
+        rewrite Hall, Hr in HH, HN. cbn [fst snd] in HH, HN.
+        split; [reflexivity|]. split; [reflexivity|]. split; [reflexivity|].
+        split; [exact HN|]. split; [now rewrite w64_add_l|]. split; [apply w64_lt|].
+        split; [|reflexivity].
+        apply (HP pre (Some (e, c)) r E). discriminate.
       - apply Forall2_app; [|exact IHl].
         destruct (Nat.ltb 1 (degree c)) eqn:D; [|constructor].
         rewrite Forall_forall in IH. specialize (IH _ Hin). simpl in IH.
@@ -368,22 +376,23 @@ Proof.
   { intro Hn. clear - Hn Hup. unfold n_up in Hup. induction sl as [|[p|] r IH]; simpl in *; try lia; auto.
     destruct Hn; [discriminate | auto]. }
   rewrite leaves_node by auto. split.
-  - unfold NI. rewrite psum_sides_pl, Hup. simpl fst. simpl snd. rewrite N.mul_0_l, N.add_0_l.
+  - unfold NI. rewrite psum_sides_pl, Hup. cbn [fst snd]. change (N.of_nat 0) with 0%N.
+    rewrite N.mul_0_l, N.add_0_l, Nat.mul_0_l, Nat.add_0_l.
     destruct (psum_sides slot_side0 slot_leaves sl) as [P1 P2].
     { intros [[e c]|] Hin; simpl; auto. apply (S _ _ Hin). }
     split; [reflexivity|]. split; [exact P1|]. split; [exact P2|].
     intros pre s post E NS.
     (* another child exists and has at least one tip *)
     assert (Hlen : 1 <= length (pre ++ post)).
-    { rewrite E in HL. rewrite app_length in *. simpl in HL. lia. }
+    { rewrite E in D. rewrite !app_length in *. simpl in D. lia. }
     destruct (pre ++ post) as [|s' r'] eqn:PP; [simpl in Hlen; lia|].
     assert (Hin' : In s' sl).
     { rewrite E. assert (In s' (pre ++ post)) by (rewrite PP; now left).
       apply in_app_or in H. apply in_or_app. destruct H; auto. right. now right. }
     destruct s' as [[e' c']|]; [|contradiction].
     destruct (S _ _ Hin') as (_ & R & NE).
-    simpl map. rewrite psum_cons. simpl. rewrite R. simpl.
-    destruct (leaves c'); [congruence | simpl; lia].
+    simpl map. rewrite psum_cons. cbn [fst snd side_of_slot]. rewrite R. cbn [snd].
+    destruct (leaves c'); [congruence | simpl length; lia].
   - unfold tip_names. simpl tips. unfold is_tip, degree. simpl uslots.
     destruct (Nat.eqb_spec (length sl) 1); [lia|]. simpl app.
     rewrite map_flat_map. unfold sub_leaves. apply flat_map_ext_in.
@@ -464,8 +473,10 @@ Qed.
 (** the model does not refuse such a tree, and returns exactly these tables *)
 Lemma no_dup_sorted : forall l, NoDup l -> has_dup_sorted l = false.
 Proof.
-  induction l as [|x [|y r] IH]; intros ND; auto.
-  inversion ND; subst. simpl. rewrite IH by auto.
+  induction l as [|x l IH]; intros ND; auto. destruct l as [|y r]; auto.
+  inversion ND; subst.
+  change (has_dup_sorted (x :: y :: r)) with (String.eqb x y || has_dup_sorted (y :: r)).
+  rewrite IH by auto.
   destruct (String.eqb_spec x y); auto. subst. exfalso. apply H1. now left.
 Qed.
 
